@@ -189,32 +189,59 @@ def run(F, R, tier):
             continue
         r3.fail((w, "unreviewed-writer"), "%s writes Jwk::kty/params and is not a reviewed writer" % L.short(w))
     # the reviewed writers do what the table says
-    h = F.hir(JWK + "::new")
-    if r3.anchor(h, JWK + "::new"):
-        env = H.Env(h)
-        for s in H.struct_lits(h):
-            fl = {f["name"]: f["e"] for f in s["fields"]}
-            ok = H.origins(fl["kty"], env) == {("param", "kty")} and H.fn_name(H.strip(fl["params"])) == KP + "::JwkParams::new" and H.origins(H.strip(fl["params"])["args"][0], env) == {("param", "kty")}
-            r3.require(ok, (JWK + "::new", "coupled"), "Jwk::new does not derive params from kty")
-    h = F.hir(JWK + "::from_params")
-    if r3.anchor(h, JWK + "::from_params"):
-        env = H.Env(h)
-        for s in H.struct_lits(h):
-            fl = {f["name"]: f["e"] for f in s["fields"]}
-            ko = H.origins(fl["kty"], env, accessors=re.compile(r"JwkParams::kty$"), extra=re.compile(r"Into::into$"))
-            po = H.origins(fl["params"], env, extra=re.compile(r"Into::into$"))
-            r3.require(ko == {("param", "params", "kty")} and po == {("param", "params")}, (JWK + "::from_params", "coupled"), "Jwk::from_params does not derive kty from the params: %s / %s" % (sorted(map(str, ko)), sorted(map(str, po))))
-    h = F.hir(JWK + "::set_kty")
-    if r3.anchor(h, JWK + "::set_kty"):
-        env = H.Env(h)
-        asg = {}
-        for n in H.walk(H.root(h)):
-            if n.get("k") == "assign":
-                for o in H.origins(n["l"], env):
-                    if o[:2] == ("param", "self") and len(o) == 3:
-                        asg[o[2]] = n["r"]
-        ok = set(asg) == {"kty", "params"} and H.fn_name(H.strip(asg.get("params", {}))) == KP + "::JwkParams::new"
-        r3.require(ok, (JWK + "::set_kty", "resets"), "Jwk::set_kty does not reset params to the new key type's empty parameters")
+    # by abstract evaluation: on every path the constructors/setters leave `params` = JwkParams::new(k) with k the very value left
+    # in `kty` (or kty = params.kty() of the very params stored); a path that leaves one of the two untouched must have decided
+    # that the other did not change (new kty == old kty)
+    def coupled(kty_t, params_t, q):
+        """is the stored params term the empty family of the stored kty term, or the stored kty the family of the stored params?"""
+        kt, pt = sym.term(kty_t), sym.term(params_t)
+        if isinstance(pt, tuple) and pt[:1] == ("call",) and re.search(r"JwkParams::new$", pt[1]) and len(pt[2]) == 1:
+            return pt[2][0] == kt or SR.pure(pt[2][0], kt) or SR.pure(kt, pt[2][0])
+        if isinstance(kt, tuple) and kt[:1] == ("call",) and re.search(r"JwkParams::kty$", kt[1]) and len(kt[2]) == 1:
+            return SR.pure(kt[2][0], pt) or SR.pure(pt, kt[2][0]) or kt[2][0] == pt
+        return False
+
+    OP = r"JwkParams::(new|kty)$"
+    for fn_ in (JWK + "::new", JWK + "::from_params"):
+        if not r3.anchor(F.hir(fn_), fn_):
+            continue
+        tab_ = SR.Table(F, fn_, opaque=OP, rule=r3)
+        good = bool(tab_.paths)
+        for q in tab_.paths:
+            v = q.ret
+            if not (isinstance(v, sym.St) and "kty" in v.f and "params" in v.f and coupled(v.f["kty"], v.f["params"], q)):
+                good = False
+                r3.fail((fn_, "coupled"), "%s does not build kty and params from one another: kty=%s params=%s" % (
+                    L.short(fn_), sym.fmt(sym.term(v.f.get("kty"))) if isinstance(v, sym.St) else "?", sym.fmt(sym.term(v.f.get("params"))) if isinstance(v, sym.St) else "?"))
+        r3.site("%s: kty and params built from one another on %d path(s): %s" % (L.short(fn_), len(tab_.paths), good))
+    fn_ = JWK + "::set_kty"
+    if r3.anchor(F.hir(fn_), fn_):
+        tab_ = SR.Table(F, fn_, opaque=OP, rule=r3)
+        OLDK, OLDP = SR.fld("kty"), SR.fld("params")
+        good = bool(tab_.paths)
+        for q in tab_.paths:
+            wk = [e.args[1] for e in SR.writes(q, "kty") if sym.term(e.args[0]) == OLDK]
+            wp = [e.args[1] for e in SR.writes(q, "params") if sym.term(e.args[0]) == OLDP]
+            kfin = wk[-1] if wk else sym.Sym(OLDK)
+            same = (not wk) or sym.term(kfin) == OLDK or SR.eq_value(q, sym.term(kfin), OLDK) is True
+            if wp:
+                ok_ = coupled(kfin, wp[-1], q)
+                if not ok_ and same:
+                    # params reset to the old kty's family, on a path that decided new kty == old kty
+                    ok_ = coupled(sym.Sym(OLDK), wp[-1], q)
+            else:
+                ok_ = same
+            if wk and not SR.pure(kfin, SR.param("value")) and sym.term(kfin) != OLDK:
+                ok_ = False
+            if not ok_:
+                good = False
+                r3.fail((fn_, "resets"), "Jwk::set_kty leaves kty=%s with params=%s: the parameters are not the new key type's empty parameters — path: %s" % (
+                    sym.fmt(sym.term(kfin)), sym.fmt(sym.term(wp[-1])) if wp else "(unchanged)", q.describe()[:160] or "(unconditional)"))
+            if not wk and not same:
+                good = False
+        stores = any(SR.writes(q, "kty") for q in tab_.paths)
+        r3.require(stores or not tab_.paths, (fn_, "stores"), "Jwk::set_kty never stores the new key type")
+        r3.site("set_kty: params = JwkParams::new(kty stored) on %d path(s): %s" % (len(tab_.paths), good))
     # set_params: by abstract evaluation, every path that stores the new parameters (field write, or the unchecked setter) has
     # kty and the parameter family decided and equal, the write happens only after that decision, and a mismatch returns Err
     tab = SR.Table(F, JWK + "::set_params", rule=r3)
